@@ -6,3 +6,13 @@ pub mod prng;
 pub mod props;
 pub mod refdec;
 pub mod util;
+
+/// Tripwire for DESIGN.md §1: the type under test has no interior mutability, so caller threads holding
+/// `&BigDecimal` can only read. If this stops compiling, the applicability analysis must be redone.
+#[allow(dead_code)]
+fn assert_send_sync<T: Send + Sync>() {}
+#[allow(dead_code)]
+fn tripwire() {
+    assert_send_sync::<bigdecimal::BigDecimal>();
+    assert_send_sync::<bigdecimal::Context>();
+}
